@@ -378,7 +378,7 @@ func (mc *MemoryChannel) copyAofFrom(seg *memorySegment, offset int64, pipew pip
 			continue
 		}
 		if errors.Is(err, io.EOF) {
-			next := mc.nextAofSegment(current.left)
+			next := mc.nextAofSegment(current)
 			if next == nil {
 				return nil
 			}
@@ -391,11 +391,14 @@ func (mc *MemoryChannel) copyAofFrom(seg *memorySegment, offset int64, pipew pip
 	}
 }
 
-func (mc *MemoryChannel) nextAofSegment(left int64) *memorySegment {
+// nextAofSegment returns the successor of the segment a reader is on. The segment is looked up by identity :
+// after a reset a segment of the new history may start at the same offset, and a reader of the old history
+// has to end there instead of continuing with the new one.
+func (mc *MemoryChannel) nextAofSegment(cur *memorySegment) *memorySegment {
 	mc.mux.RLock()
 	defer mc.mux.RUnlock()
 	for i := 0; i < len(mc.aofSegs)-1; i++ {
-		if mc.aofSegs[i].left == left {
+		if mc.aofSegs[i] == cur {
 			return mc.aofSegs[i+1]
 		}
 	}
